@@ -1344,3 +1344,80 @@ def rule_redispose(ctx, m, rid="O16-redispose"):
                  "`%s` at %s destroys the elements of `%s` again after parts of them were disposed by hand: the blocks they own are released twice" % (
                      f.text(hit)[:40], f.loc(hit)[0] if isinstance(f.loc(hit), tuple) else f.loc(hit), cont), f.loc(c))
     return r
+
+
+def rule_accumulator_wrap(ctx, m, files=("Digit.hpp",), rid="ACC-wrap"):
+    """ACC-wrap: a decimal accumulation (acc *= 10; acc += digit) in a loop that runs as long as the input has digits multiplies an
+    unsigned accumulator once per input unit: after 10 (32-bit) or 20 (64-bit) digits it wraps and the value that the range test
+    sees is unrelated to the numeral (1e4294967297 read as 1e1).  Such an accumulation is acceptable only when (a) its loop is
+    bounded by a local window (the loop condition's bound is a local, not the end-of-input parameter -- the 19-digit window of the
+    mantissa), or (b) the accumulation is guarded, inside the iteration, by a comparison of the accumulator itself with a
+    constant (a saturating guard)."""
+    r = Rule(rid, "a decimal accumulation bounded only by the end of the input is guarded by a bound on the accumulator", floor=2)
+    # one named exception: the unchecked conversion (no digit test, no range decision is taken from its result; its only caller
+    # bounds-checks the index it yields).  It is outside the numeral grammar C09 speaks about.
+    EXEMPT = {"Qentem::Digit::FastStringToNumber": "documented unchecked conversion of a short digit string; the caller bounds-checks the result"}
+    for f in m.functions:
+        if f.inst or not f.cfg or not any(f.file.endswith("/" + x) for x in files):
+            continue
+        if f.q in EXEMPT:
+            r.suppressions.append({"rule": rid, "function": f.q, "construct": "*= 10", "reason": EXEMPT[f.q], "matched": 1})
+            continue
+        par = f.parents()
+        params = set(p["d"] for p in f.params)
+        for x in f.walk():
+            n = f.nodes[x]
+            if n["k"] != "CompoundAssignOperator" or n["op"] != "*=":
+                continue
+            k = f.const_value(f.strip_casts(n["ch"][1]))
+            if k is None:
+                k = m.eval_nodes(f.nodes, f.strip_casts(n["ch"][1]))
+            if k != 10:
+                continue
+            acc_decls = set(f.nodes[y].get("d") for y in f.walk(n["ch"][0]) if f.nodes[y]["k"] in ("DeclRefExpr", "MemberExpr"))
+            loop = None
+            guards = []
+            cur = x
+            while True:
+                p_ = par.get(cur)
+                if p_ is None:
+                    break
+                pn = f.nodes[p_]
+                if pn["k"] == "IfStmt" and cur in (pn.get("then"), pn.get("else")):
+                    guards.append(pn["cond"])
+                if pn["k"] in ("WhileStmt", "DoStmt", "ForStmt"):
+                    loop = p_
+                    break
+                cur = p_
+            if loop is None:
+                continue
+            ctx.note_fn(f)
+            cond = f.nodes[loop].get("cond", -1)
+            bound_is_input = False
+            if cond is not None and cond >= 0:
+                for y in f.walk(cond):
+                    yn = f.nodes[y]
+                    if yn["k"] == "BinaryOperator" and yn["op"] in ("<", "<=", "!=", ">", ">="):
+                        for side in yn["ch"]:
+                            sn = f.nodes[f.strip_casts(side)]
+                            if sn["k"] == "DeclRefExpr" and sn.get("d") in params and not any(p["d"] == sn["d"] and p.get("ref") for p in f.params):
+                                bound_is_input = True
+            guarded = False
+            for g in guards:
+                for y in f.walk(g):
+                    yn = f.nodes[y]
+                    if yn["k"] == "BinaryOperator" and yn["op"] in ("<", "<=", ">", ">="):
+                        sides = yn["ch"]
+                        for a_, b_ in (sides, sides[::-1]):
+                            if any(f.nodes[z].get("d") in acc_decls for z in f.walk(a_) if f.nodes[z]["k"] in ("DeclRefExpr", "MemberExpr")) and \
+                                    (f.const_value(f.strip_casts(b_)) is not None or m.eval_nodes(f.nodes, f.strip_casts(b_)) is not None):
+                                guarded = True
+            if not bound_is_input:
+                ok, why = True, "the loop is bounded by a local window (`%s`), not by the end of the input" % (f.text(cond)[:50] if cond is not None and cond >= 0 else "?")
+            elif guarded:
+                ok, why = True, "the accumulation is under a bound on the accumulator itself"
+            else:
+                ok, why = False, "the loop `%s` runs for as many digits as the input has and nothing bounds `%s`: it wraps after %s digits and the range test sees an unrelated value" % (
+                    f.text(cond)[:50], f.text(n["ch"][0]), "10" if "32" in (f.nodes[f.strip(n["ch"][0])].get("t") or "") else "about 20")
+            r.ob(f.sig if len(m.fns(f.q, required=False)) > 1 else f.q, f.text(x)[:60], ok, why, f.loc(x))
+    return r
